@@ -227,7 +227,7 @@ class Result:
             ps = self.per_scheme.setdefault(sch, dict(replayed=0, ok=0, violation=0, known=0, skip=0, drift=0))
             ps["replayed"] += 1
             sig = json.dumps([b.get("scheme"), b.get("tag"), b.get("polys"), b.get("ops"), b.get("adv"),
-                              b.get("supported"), b.get("bounds"), b.get("hiding")], sort_keys=True)
+                              b.get("supported"), b.get("bounds"), b.get("hiding"), b.get("cfg"), b.get("stmt")], sort_keys=True)
             self.distinct.add(hashlib.sha1(sig.encode()).hexdigest())
             if len(self.samples) < 3 and (b.get("adv") or len(self.samples) < 1):
                 self.samples.append(dict(behaviour=b, observed=v["obs"], verdict=v["verdict"]))
@@ -260,6 +260,9 @@ class Result:
                         if (mod == "accept") != obs_acc:
                             ps["drift"] += 1
                             self.drift.append("%s %s op%d: model %s, code %s" % (sch, b.get("id"), i + 1, mod, o["check"]))
+                            if len(self.drift) <= 20:
+                                os.makedirs(os.path.join(WORK, "drift"), exist_ok=True)
+                                json.dump(dict(behaviour=b, verdict=v), open(os.path.join(WORK, "drift", "%s-%d.json" % (self.prop, len(self.drift))), "w"), indent=1)
 
     def finish(self, rule, assumptions, extra_cov=None):
         for kid, cnt in sorted(self.known_hits.items()):
